@@ -470,7 +470,7 @@ fn main() {
                 let d = sc.describe();
                 handle(&ctx, idx, &mut rep, &mut acc, Job::Real(sc), d, class)
             } else {
-                let mut sc = gen_scenario(&mut rng, ctx.miri, long);
+                let mut sc = gen_scenario_t(&mut rng, ctx.miri, long, ctx.tier_thorough);
                 shape_mock(&prop, &mut rng, idx, &mut sc);
                 let class = sc.class();
                 let d = sc.describe();
